@@ -23,19 +23,7 @@ var targetFile = map[string]string{
 	"GetContextError":       "GenErrors",
 	"NewWrappedSystemError": "GenErrors",
 	"GetSystemErrorMessage": "GenErrors",
-	"GetSystemErrorCode":  "GenRetry",
-	"getErrCode":          "GenRetry",
-	"CanRetry":            "GenRetry",
-	"SetPayloadSize":      "GenFrame",
-	"PayloadSize":         "GenFrame",
-	"finishesCall":        "GenFrame",
-	"frameTypeFor":        "GenFrame",
-	"isMessageTypeCall":   "GenFrame",
-	"hasMoreFragments":    "GenFrame",
-	"isCallResOK":         "GenFrame",
-	"ChecksumSize":        "GenFrame",
-	"poolIndex":           "GenFrame",
-	"isEphemeralHostPort": "GenHandshake",
+	"isEphemeralHostPort":   "GenHandshake",
 }
 
 // varFields: constant fields of package-level composite-literal variables.
